@@ -29,7 +29,8 @@ Proof. exact ack_window. Qed.
 Print Assumptions C06_ack_window.
 
 Theorem C06_queue_ack_monotone_bounded :
-  (forall s o, qack s <= qack (step s o)) /\
+  (* outside the explicit index reset (SetAppended), which moves the log head and the ack to the given position *)
+  (forall s o, is_reset o = false -> qack s <= qack (step s o)) /\
   (forall s, qack (step s Sync) <> qack s ->
      qack (step s Sync) <= appended s /\ forall n g, In (n, g) (opened s) -> qack (step s Sync) <= gack g).
 Proof. exact (conj queue_ack_monotone queue_ack_bounded_by_groups). Qed.
